@@ -19,7 +19,7 @@
     `+Inf` areas (the two end items, and `math.MaxFloat64*2`) are `none : Option α`.
   * helpers.go: `runSimplify` (≤ 2 points returned untouched), `lineString`, `multiLineString`,
     `ring`, `polygon` (inner rings reduced to ≤ 2 points dropped), `multiPolygon` (polygons without
-    rings or whose outer ring is ≤ 2 points dropped), `collection`,
+    rings or whose outer ring is ≤ 2 points dropped), `collection` (members whose result is nil dropped),
     and the generic `simplify` type switch with its "empty result ⇒ nil interface" rule.
 
   Outcomes: `.ok v`, `.panic why` (a Go run-time panic), `.err ()` (loop fuel exhausted, i.e. the
@@ -384,6 +384,11 @@ inductive OGeom (α : Type) where
   | coll (gs : List (OGeom α))
 deriving Repr, Inhabited
 
+/-- is this result a nil interface? -/
+def OGeom.isNil {α : Type} : OGeom α → Bool
+  | .nil => true
+  | _ => false
+
 section helpers
 variable {α : Type}
 
@@ -449,7 +454,8 @@ def wrapLen {β : Type} (mk : List β → Geom α) (r : R (List β)) : R (OGeom 
   | .err e => .err e
   | .panic w => .panic w
 
-/-- the generic `simplify(s, geom)` on a non-nil value, and `collection` -/
+/-- the generic `simplify(s, geom)` on a non-nil value, and `collection` (a member that simplifies to
+    nothing is dropped; a collection none of whose members is left comes back as a nil interface) -/
 def simplifyG (s : Simplifier α) : Geom α → R (OGeom α)
   | .point p => .ok (.geom (.point p))
   | .multiPoint ps => .ok (.geom (.multiPoint ps))
@@ -471,13 +477,15 @@ where
       match simplifyG s g with
       | .ok g' =>
         (match go rest with
-         | .ok rest' => .ok (g' :: rest')
+         -- `g := simplify(s, c[i]); if g == nil { continue }; c[count] = g; count++`
+         | .ok rest' => if g'.isNil then .ok rest' else .ok (g' :: rest')
          | .err e => .err e
          | .panic w => .panic w)
       | .err e => .err e
       | .panic w => .panic w
 
-/-- `collection` (the typed method `Collection`) -/
+/-- `collection` (the typed method `Collection`): members whose result is a nil interface are dropped,
+    the others compacted in order (`c[:count]`) -/
 def collection (s : Simplifier α) (gs : List (Geom α)) : R (List (OGeom α)) := simplifyG.go s gs
 
 /-- the exported `Simplify(g)` including a nil interface and typed nil slices at top level:
